@@ -115,6 +115,8 @@ type Params struct {
 	// ReadDelay: both applications wait this long (virtual) before their first Read, so that
 	// everything the peer wrote meanwhile piles up in the session's receive structures
 	ReadDelay time.Duration
+	// WriteGap: the writers pause this long (virtual) after every Write: a slow, long transfer
+	WriteGap time.Duration
 	// Raw: drive protocol.Mux directly (no socks5 request in front: the application's own
 	// first Write is what rides on the open session request); one session only
 	Raw bool
@@ -135,6 +137,9 @@ func (p Params) String() string {
 	}
 	if p.Raw {
 		s += " raw-mux"
+	}
+	if p.WriteGap != 0 {
+		s += fmt.Sprintf(" write-gap=%v", p.WriteGap)
 	}
 	return s
 }
@@ -278,7 +283,7 @@ func ExecWith(p Params, pats []NamedTP, ctl *explore.Ctl, mon Monitor, adjust fu
 					v.Add("wrong-request", "server accepted a request for port %d", tag)
 					return
 				}
-				sg.Go(fmt.Sprintf("srv-w%d", id), "server", func() { writer(v, c, id, 's', p.SW) })
+				sg.Go(fmt.Sprintf("srv-w%d", id), "server", func() { writer(v, c, id, 's', p.SW, p.WriteGap) })
 				sg.Go(fmt.Sprintf("srv-r%d", id), "server", func() {
 					if p.ReadDelay != 0 {
 						vsched.Sleep(p.ReadDelay)
@@ -307,7 +312,7 @@ func ExecWith(p Params, pats []NamedTP, ctl *explore.Ctl, mon Monitor, adjust fu
 				}
 				conns[k] = c
 				var cg world.Group
-				cg.Go(fmt.Sprintf("cli-w%d", k), "client", func() { writer(v, c, k, 'c', p.CW) })
+				cg.Go(fmt.Sprintf("cli-w%d", k), "client", func() { writer(v, c, k, 'c', p.CW, p.WriteGap) })
 				cg.Go(fmt.Sprintf("cli-r%d", k), "client", func() {
 					if p.ReadDelay != 0 {
 						vsched.Sleep(p.ReadDelay)
@@ -374,7 +379,7 @@ func bucket(ns int64) int {
 	return 999
 }
 
-func writer(v *Verdict, c net.Conn, id int, dir byte, sizes []int) {
+func writer(v *Verdict, c net.Conn, id int, dir byte, sizes []int, gap time.Duration) {
 	off := 0
 	for _, n := range sizes {
 		buf := world.Pattern(id, dir, off, n)
@@ -393,6 +398,9 @@ func writer(v *Verdict, c net.Conn, id int, dir byte, sizes []int) {
 			return
 		}
 		off += n
+		if gap != 0 {
+			vsched.Sleep(gap)
+		}
 	}
 }
 
